@@ -27,7 +27,7 @@ BASE_CFG = {"max_nodes": 5, "n_tables": (1, 2), "final_order": 0.3, "expr_mode":
 MUTATIONS = [
     "none", "lit_value", "lit_type", "operator", "method", "column_ref", "jointype", "join_on", "reverse", "limit", "partition_by",
     "order_by", "concat_id", "concat_label", "record_cell", "record_key", "select_order", "group_by_order", "order_cols_order",
-    "table_columns", "drop_list", "rename_target", "extend_target",
+    "table_columns", "drop_list", "rename_target", "extend_target", "collection",
 ]
 
 
@@ -65,6 +65,41 @@ def mutate(case, kind, pick):
     reach = [i for i in spec.reachable(c) if c["nodes"][i]["op"] != "table"]
     sch = schema.infer(c)
     if kind == "none":
+        return c
+    if kind == "collection":
+        # one element of an is_in list / one entry of a mapv dict changed, added or removed
+        sites = []
+        for i in reach:
+            for holder, key in _exprs(c["nodes"][i]):
+                for sub, path in _walk(holder[key]):
+                    if sub[0] in ("list", "dict") and len(sub[1]) >= 1:
+                        sites.append((holder, key, path, sub))
+        if not sites:
+            return None
+        holder, key, path, sub = pick(sites)
+        items = [list(x) if isinstance(x, list) else x for x in sub[1]]
+        how = pick(["change", "change", "append", "drop"] if len(items) > 1 else ["change", "append"])
+        bump = lambda v: (v + 1) if isinstance(v, (int, float)) and not isinstance(v, bool) else (str(v) + "~")  # noqa: E731
+        j = pick(list(range(len(items))))
+        if sub[0] == "list":
+            if how == "change":
+                items[j] = bump(items[j])
+            elif how == "append":
+                items.append(bump(items[-1]))
+            else:
+                items.pop(j)
+            if len(set(map(repr, items))) != len(items):
+                return None
+        else:
+            if how == "change":
+                items[j] = [items[j][0], bump(items[j][1])] if pick([True, False]) else [bump(items[j][0]), items[j][1]]
+            elif how == "append":
+                items.append([bump(items[-1][0]), items[-1][1]])
+            else:
+                items.pop(j)
+            if len({repr(k) for k, _ in items}) != len(items):
+                return None
+        _subst(holder, key, path, [sub[0], items])
         return c
     if kind in ("lit_value", "lit_type", "operator", "method", "column_ref"):
         sites = []
@@ -387,8 +422,14 @@ def replay(check_name, pair):
 def pairs(draw, closed=()):
     cfg = dict(BASE_CFG)
     cfg["closed"] = set(closed)
-    p = gen.draw_program(draw, cfg)
-    kinds = draw(st.permutations(MUTATIONS))
+    if draw(st.integers(0, 2)) == 0:
+        from . import c12  # programs with is_in lists / mapv dicts (printing-sensitive enrichment)
+
+        p = c12.draw_case(draw, closed)
+        kinds = ["collection"] + list(draw(st.permutations(MUTATIONS)))
+    else:
+        p = gen.draw_program(draw, cfg)
+        kinds = draw(st.permutations(MUTATIONS))
     pick = lambda xs: draw(st.sampled_from(list(xs)))
     for kind in kinds[:8]:
         try:
